@@ -464,4 +464,91 @@ def uploadStreamRetriedWith (rew : FaultClass → Bool) (to : Nat) (c : Crypto) 
 def uploadStreamRetried (c : Crypto) (s : Stream) (length chunk : Nat) (faults : List Fault) : List Attempt :=
   uploadStreamRetriedWith putRewinds Gen.s3PutRewindTo c s length chunk faults
 
+/-! ## replies that make the HTTP client act by itself: redirects
+
+Every request of the adapter is built and signed by `_prepare_request` (`toWire`) and handed to `AsyncClient.send`.  Whether that
+is the ONLY source of requests on the wire depends on what the service answers and on two places of the code: the
+`follow_redirects` argument reaching `send` (`Gen.s3FollowRedirects`) and the response hook, which runs BEFORE httpx looks at the
+`Location` header and raises for every status outside 2xx when it calls `raise_for_status()` unconditionally
+(`Gen.s3HookRaisesOnNon2xx`).  When a 301/302/303/307/308 with a `Location` passes the hook and redirects are followed, httpx
+builds the next request ITSELF (`_build_redirect_request`): the headers of the answered request are copied — `x-amz-date`,
+`x-amz-content-sha256` and, on the same origin (or a plain http → https upgrade), the `Authorization` computed for the OLD
+host / path / method; away from the origin `Authorization` is dropped and `Host` replaced.  Nothing is signed again. -/
+
+def mGet : Bytes := [71, 69, 84]
+def mHead : Bytes := [72, 69, 65, 68]
+def mPost : Bytes := [80, 79, 83, 84]
+
+/-- the target of a `Location` header as httpx resolves it against the URL of the request that was answered -/
+structure Location where
+  sameOrigin : Bool            -- `_same_origin`: scheme, host and port-or-default all equal
+  httpsUpgrade : Bool          -- `_is_https_redirect`: same host, http on port 80 → https on port 443
+  host : Bytes                 -- `url.netloc` of the target (what the `Host` header becomes away from the origin)
+  path : Bytes                 -- raw path of the target
+  query : List (Bytes × Bytes) -- raw query pieces of the target
+
+/-- what the service does with one request that arrives -/
+inductive Reply where
+  | answer                                   -- 2xx
+  | fail (k : FaultClass)                    -- an error status (4xx / 5xx) or a transport-level failure
+  | redirect (status : Nat) (l : Location)   -- 301 / 302 / 303 / 307 / 308 WITH a `Location` (`Response.has_redirect_location`)
+  | odd                                      -- any other status outside 2xx: 1xx, 300, 304, 305, 306, a 3xx without `Location`
+
+/-- `_redirect_method` -/
+def redirectMethod (status : Nat) (m : Bytes) : Bytes :=
+  if (status == 303 || status == 302) && m != mHead then mGet
+  else if status == 301 && m == mPost then mGet
+  else m
+
+/-- `_build_redirect_request`: the request httpx emits by itself for a followed redirect -/
+def followRequest (w : Wire) (status : Nat) (l : Location) : Wire :=
+  { w with method := redirectMethod status w.method, path := l.path, query := l.query,
+           host := if l.sameOrigin then w.host else l.host,
+           authorization := if l.sameOrigin || l.httpsUpgrade then w.authorization else [] }
+
+/-- how `AsyncClient.send` + the response hook end, as the retried adapter function sees it -/
+inductive SendResult where
+  | returned (passed3xx : Bool) -- a response was handed to the caller (`true`: a redirect the hook let pass and nobody followed)
+  | raised (k : FaultClass)     -- `HTTPStatusError` from the hook / a transport error (`TooManyRedirects` included)
+  deriving DecidableEq, Repr
+
+/-- `AsyncClient.send(request, follow_redirects=follow)` for one signed request against a script of replies (one reply per
+request that arrives; an exhausted script answers): the requests put on the wire, the result, the rest of the script.
+`budget` = redirects httpx still follows (`max_redirects`). -/
+def sendAux (follow hookRaises : Bool) : List Reply → Nat → Wire → List Wire × SendResult × List Reply
+  | [], _, w => ([w], .returned false, [])
+  | .answer :: rs, _, w => ([w], .returned false, rs)
+  | .fail k :: rs, _, w => ([w], .raised k, rs)
+  | .odd :: rs, _, w => ([w], .raised .status, rs)
+  | .redirect _ _ :: rs, 0, w =>
+    ([w], if hookRaises then .raised .status else if follow then .raised .transport else .returned true, rs)
+  | .redirect st l :: rs, b + 1, w =>
+    if hookRaises then ([w], .raised .status, rs)
+    else if follow then
+      let r := sendAux follow hookRaises rs b (followRequest w st l)
+      (w :: r.1, r.2)
+    else ([w], .returned true, rs)
+
+def sendWith (follow hookRaises : Bool) (budget : Nat) (w : Wire) (rs : List Reply) : List Wire × SendResult × List Reply :=
+  sendAux follow hookRaises rs budget w
+
+/-- one adapter function under `backoff` (`tries` = `max_tries`; every failure in the scripts is a retried `httpx.HTTPError` —
+the give-up status 403 is not scripted): signing number `j`, `j + 1`, … (one clock reading each) until a response is returned.
+Result: the requests on the wire, each with the number of the signing it belongs to; success; rest of the script; next signing;
+whether the response handed back was a redirect that passed the hook unfollowed (the adapter then reads it as if it were the answer). -/
+def callWith (follow hookRaises : Bool) (maxRedirects : Nat) (sign : Nat → Wire) :
+    Nat → Nat → List Reply → List (Nat × Wire) × Bool × List Reply × Nat × Bool
+  | 0, j, rs => ([], false, rs, j, false)
+  | t + 1, j, rs =>
+    let r := sendWith follow hookRaises maxRedirects (sign j) rs
+    match r.2.1 with
+    | .returned p => (r.1.map (fun w => (j, w)), true, r.2.2, j + 1, p)
+    | .raised _ =>
+      let r' := callWith follow hookRaises maxRedirects sign t (j + 1) r.2.2
+      (r.1.map (fun w => (j, w)) ++ r'.1, r'.2)
+
+/-- … with what the code does today -/
+def callRequests (sign : Nat → Wire) (tries j : Nat) (rs : List Reply) : List (Nat × Wire) × Bool × List Reply × Nat × Bool :=
+  callWith Gen.s3FollowRedirects Gen.s3HookRaisesOnNon2xx Gen.s3MaxRedirects sign tries j rs
+
 end Replicat.SigV4
